@@ -754,6 +754,23 @@ def extreme_histories(rng, tier):
                     if 0 < a <= h.bal(lp, u):
                         h.do(("send", lp, u, p, a, ("hwithdraw",)))
         cases.append(h.finish())
+    # lopsided pools: a supply of ~1e19 LP units against one tiny reserve, then large burns (rounding of the refund
+    # is then dominated by the burn amount if it is computed in the wrong order)
+    for (n0, n1) in ([(3 * 10 ** 30, 10 ** 8), (10 ** 37, 30)] if tier == "quick" else
+                     [(3 * 10 ** 30, 10 ** 8), (10 ** 37, 30), (10 ** 8, 3 * 10 ** 30), (2 * 10 ** 36, 7)]):
+        h = Hist(2, 2, 1, 2, 2 ** 125, 1000, [6], "directed-extreme", "lopsided pool, large burns")
+        owner = h.owner()
+        h.do(("fac_add_native", owner, 0, 6))
+        h.do(("fac_add_native", owner, 1, 6))
+        h.do(("fac_create_pair", owner, ("n", 0), ("n", 1), [USER0], 0, 0, 3 * 10 ** 15, None))
+        p = h.pairs()[0]
+        h.do(("provide", p, USER0, [(0, n0), (1, n1)], ("n", 0), n0, ("n", 1), n1, None, None))
+        lp = h.pair_lp(p)
+        b = h.bal(lp, USER0)
+        for a in (5 * 10 ** 18, b // 3, b - 1):
+            if 0 < a <= h.bal(lp, USER0):
+                h.do(("send", lp, USER0, p, a, ("hwithdraw",)))
+        cases.append(h.finish())
     return cases
 
 
